@@ -236,6 +236,7 @@ partial def loop (h : IO.FS.Stream) (d : DS) : IO Unit := do
         | none => ""
       say { d with us } s!"wait[{attr}]"
     | ["wait", _, "late"] => IO.println "R late"; loop h { d with dead := true }
+    | ["poll", "late"] => IO.println "R late"; loop h { d with dead := true }
     | ["backlog", _] =>
       -- the read path does not depend on the write side: only the registration changes (and with it, in the code, the
       -- interest set — which must still ask for EPOLLRDHUP: the reports of this model assume it)
